@@ -1895,7 +1895,9 @@ impl Sessions {
             let expire_sess = self
                 .sessions
                 .iter_mut()
-                .find(|sess| sess.id == expire_sess_id);
+                .find(|sess| {
+                    sess.id == expire_sess_id && sess.get_local_fabric_idx() == fabric_idx.get()
+                });
             if let Some(expire_sess) = expire_sess {
                 expire_sess.expired = true;
                 info!(
